@@ -69,12 +69,22 @@ Definition no_rollover (f : io) (n : nat) : bool :=
 Definition rebuilt (f : io) (n : nat) : list (Z * Z) :=
   map (fun i => (sdate f, stime f + Z.of_nat i * tstep f)) (seq 0 n).
 
-(* updatetflag(): re-create TFLAG when missing or when its second axis differs from NVARS *)
+(* updatetflag(): re-create TFLAG when missing or when its second axis differs from NVARS.  With
+   fixes/C10-updatetflag-keeps-times.patch an existing TFLAG that only has the wrong number of variables keeps the time of
+   every step (they need not be regular); otherwise the flags are generated from SDATE/STIME/TSTEP.  SDATE/STIME := first flag. *)
 Definition updatetflag (f : io) : res io :=
   let overwrite := match tflag f with None => true | Some (s1, _) => negb (Nat.eqb s1 (nvars f)) end in
   if overwrite then
-    if Nat.eqb (vardim f) 0 || Nat.eqb (nt f) 0 || negb (no_rollover f (nt f)) then Raise   (* IndexError / not modelled *)
-    else Ok (set_meta f (nvars f) (varlist f) (vardim f) (Some (vardim f, rebuilt f (nt f))) (sdate f) (stime f))
+    if Nat.eqb (vardim f) 0 || Nat.eqb (nt f) 0 then Raise else                                  (* IndexError *)
+    let keep := match tflag f with
+                | Some (s1, r0 :: rest) => if negb (Nat.eqb s1 0) && Nat.eqb (length (r0 :: rest)) (nt f)
+                                           then Some (r0, rest) else None
+                | _ => None end in
+    match keep with
+    | Some (r0, rest) => Ok (set_meta f (nvars f) (varlist f) (vardim f) (Some (vardim f, r0 :: rest)) (fst r0) (snd r0))
+    | None => if negb (no_rollover f (nt f)) then Raise                                        (* not modelled *)
+              else Ok (set_meta f (nvars f) (varlist f) (vardim f) (Some (vardim f, rebuilt f (nt f))) (sdate f) (stime f))
+    end
   else Ok f.
 
 (* updatemeta(): TSTEP unlimited, VAR-LIST/NVARS/VAR, NLAYS NCOLS NROWS from the dimensions, TFLAG *)
@@ -206,14 +216,24 @@ Fixpoint sel_all (g : io) (sels : list (dimk * bool * list nat)) : res io :=
   match sels with [] => Ok g | s :: t => do g' <- sel_one g s; sel_all g' t end.
 Fixpoint dims_distinct (ds : list dimk) : bool :=
   match ds with [] => true | d :: t => negb (existsb (dimk_eqb d) t) && dims_distinct t end.
+Definition nlists (sels : list (dimk * bool * list nat)) : nat := length (filter (fun s => snd (fst s)) sels).
+(* two index lists, one of them on TSTEP, of equal length (the "zipped" POINTS selection): every standard variable carries
+   both dimensions and ends up on (POINTS, ...), i.e. no standard variable is left; TFLAG keeps its own TSTEP selection *)
+Definition zip_ok (sels : list (dimk * bool * list nat)) : bool :=
+  match filter (fun s => snd (fst s)) sels with
+  | [a; b] => (dimk_eqb (fst (fst a)) DT || dimk_eqb (fst (fst b)) DT)
+              && Nat.eqb (length (snd a)) (length (snd b))
+  | _ => false
+  end.
 Definition impl_slice (f : io) (sels : list (dimk * bool * list nat)) : res io :=
-  (* keyword arguments name each dimension once; two index lists take the POINTS path (variables lose the standard
-     dimensions): not modelled here, C01 drives it *)
-  if negb (dims_distinct (map (fun s => fst (fst s)) sels))
-     || Nat.ltb 1 (length (filter (fun s => snd (fst s)) sels)) then Raise else
+  (* keyword arguments name each dimension once *)
+  if negb (dims_distinct (map (fun s => fst (fst s)) sels)) then Raise else
   match tflag f with
   | None => Raise
-  | Some _ => do f2 <- sel_all f sels; updatemeta f2
+  | Some _ =>
+      if Nat.leb (nlists sels) 1 then do f2 <- sel_all f sels; updatemeta f2
+      else if zip_ok sels then do f2 <- sel_all f sels; updatemeta (set_dvars f2 [])
+      else Raise                      (* other multi-list selections (ROW and COL zipped, three lists): C01 drives them *)
   end.
 
 (* ioapi_base.applyAlongDimensions for one dimension *)
@@ -292,13 +312,14 @@ Fixpoint irun (f : io) (ops : list iop) : res io :=
 
 (* ---- the sub-domain on which coherence is PROVED; the complement = known-defect regions --------------- *)
 (* 0 = safe; 1 = a reducer along TSTEP over more than one step (TFLAG is reduced like data, SDATE/STIME are not touched);
-   2 = subsetVariables selecting nothing; 3 = a standard variable missing from VAR-LIST (never generated: the
+   2 = subsetVariables selecting nothing, or a zipped (two-list) selection: no listed variable is left, NVARS=0 but VAR=1; 3 = a standard variable missing from VAR-LIST (never generated: the
    overriding copyVariable would append it).  renameVariable and functions along LAY are repaired
    (fixes/C10-renameVariable-varlist.patch, fixes/C10-apply-vglvls.patch) and need no region any more. *)
 Definition iop_region (f : io) (o : iop) : nat :=
   match o with
   | IApply DT g => match g with FHalf => 0 | _ => if Nat.eqb (nt f) 1 then 0 else 1 end
   | ISubset ks => match filter (fun k => memb k ks) (listed_existing f) with [] => 2 | _ => 0 end
+  | ISlice sels => if Nat.leb (nlists sels) 1 then 0 else 2     (* zipped selection: no standard variable is left *)
   | IEval _ a false => if memb a (listed_existing f) then 0 else 3
   | IStack _ _ => if forallb (fun k => memb k (varlist f)) (dvars f) then 0 else 3
   | _ => 0
